@@ -130,9 +130,10 @@ def nnAll (pts : List (Pt K)) : List (Option Nat) := nnFrom pts pts 0
 
 def clamp01 (x : K) : K := if x < 0 then 0 else if x > 1 then 1 else x
 
-/-- initial guess: interior stationary point, or the projections used for parallel / degenerate segments -/
+/-- initial guess: interior stationary point (`t` = projection of `a₀ + s u` onto the second line, as the code computes it since the
+repair of the near-parallel float case; equal to `(AE − BD)/den` in exact arithmetic), or the projections used for parallel / degenerate segments -/
 def firstStage (A B C D E : K) : K × K :=
-  if A * C - B * B > 0 then ((B * E - C * D) / (A * C - B * B), (A * E - B * D) / (A * C - B * B))
+  if A * C - B * B > 0 then ((B * E - C * D) / (A * C - B * B), (B * ((B * E - C * D) / (A * C - B * B)) + E) / C)
   else if C > 0 then (0, E / C)
   else if A > 0 then (-D / A, 0)
   else (0, 0)
